@@ -26,6 +26,7 @@ from .c04_txt import (Bad, is_bad, is_rat, single_atom, atom_id, sym_name, strco
                       make_field, brace_format, Star, PackV, StructV, BoundV, DtypeV, BytesV, Stream, Item, parse_struct, pack_items, unpack_items,
                       CODE_SIZE)
 
+
 MAX_DEPTH = 14
 
 
@@ -71,6 +72,91 @@ class FuncV:
         return f"<func {self.qual}>"
 
 
+class NTup(tuple):
+    """a namedtuple instance: a tuple whose entries can also be read by field name"""
+    fields = ()
+
+    @staticmethod
+    def make(values, fields):
+        t = NTup(values)
+        t.fields = tuple(fields)
+        return t
+
+
+def record_types(mod):
+    """record types defined at module level: `X = namedtuple("X", "a b c")` / `NamedTuple("X", [("a", int), ...])`, `class X(NamedTuple)` and
+    `@dataclass class X` with annotated fields -> {name: (kind, [field names], {field: default expression})}"""
+    out = {}
+    for st in mod.tree.body:
+        if isinstance(st, ast.Assign) and len(st.targets) == 1 and isinstance(st.targets[0], ast.Name) and isinstance(st.value, ast.Call):
+            fn = (dotted(st.value.func) or "").split(".")[-1]
+            a = st.value.args
+            if fn in ("namedtuple", "NamedTuple") and len(a) >= 2:
+                spec = a[1]
+                names = None
+                if isinstance(spec, ast.Constant) and isinstance(spec.value, str):
+                    names = spec.value.replace(",", " ").split()
+                elif isinstance(spec, (ast.List, ast.Tuple)):
+                    names = []
+                    for e in spec.elts:
+                        if isinstance(e, ast.Constant) and isinstance(e.value, str):
+                            names.append(e.value)
+                        elif isinstance(e, (ast.Tuple, ast.List)) and e.elts and isinstance(e.elts[0], ast.Constant) and isinstance(e.elts[0].value, str):
+                            names.append(e.elts[0].value)
+                        else:
+                            names = None
+                            break
+                if names:
+                    dflt = {}
+                    for k in st.value.keywords:
+                        if k.arg == "defaults" and isinstance(k.value, (ast.List, ast.Tuple)):
+                            dflt = dict(zip(names[::-1], k.value.elts[::-1]))
+                    out[st.targets[0].id] = ("tuple", names, dflt)
+        elif isinstance(st, ast.ClassDef):
+            bases = [(dotted(b) or "").split(".")[-1] for b in st.bases]
+            decos = [(dotted(d.func if isinstance(d, ast.Call) else d) or "").split(".")[-1] for d in st.decorator_list]
+            if "NamedTuple" in bases or "dataclass" in decos:
+                names, dflt = [], {}
+                for x in st.body:
+                    if isinstance(x, ast.AnnAssign) and isinstance(x.target, ast.Name):
+                        names.append(x.target.id)
+                        if x.value is not None:
+                            dflt[x.target.id] = x.value
+                if names and not any(isinstance(x, (ast.FunctionDef, ast.AsyncFunctionDef)) and x.name in ("__init__", "__new__", "__post_init__") for x in st.body):
+                    out[st.name] = ("tuple" if "NamedTuple" in bases else "record", names, dflt)
+    return out
+
+
+class TypedArr:
+    """an array converted to a stated dtype (np.asarray(x, dtype), x.astype(dtype)): the values of `arr` as items of struct code `code`"""
+
+    def __init__(self, arr, code, order):
+        self.arr, self.code, self.order = arr, code, order
+
+    def __repr__(self):
+        return f"<{self.arr!r} as {self.code}>"
+
+
+class PartialV:
+    """functools.partial(callee, *pos, **kw)"""
+
+    def __init__(self, callee, pos, kw):
+        self.callee, self.pos, self.kw = callee, list(pos), dict(kw)
+
+    def __repr__(self):
+        return f"<partial {self.callee!r}>"
+
+
+class BufV:
+    """io.StringIO() / io.BytesIO(): what has been written into it so far (immutable: a write rebinds the name that holds the buffer)"""
+
+    def __init__(self, binary, parts=()):
+        self.binary, self.parts = binary, tuple(parts)
+
+    def __repr__(self):
+        return f"<buffer {list(self.parts)!r}>"
+
+
 class GetterV:
     """operator.itemgetter(k) / attrgetter("a") / methodcaller("m", ...): a callable that applies that access to its argument"""
 
@@ -84,6 +170,9 @@ class GetterV:
 class Frame:
     def __init__(self, node, iterable, elems, kind):
         self.node, self.iterable, self.elems, self.kind = node, iterable, elems, kind
+        self.index = None          # the symbol that counts the iterations (range loops: the element itself; enumerate: its first component)
+        self.rows_of = None        # `for k in range(len(X))`: X
+        self.row_elems = None      # ... and what `a, b = X[k]` bound in the body: the generic row of X
 
     def __repr__(self):
         return f"<{self.kind} {self.elems!r} in {self.iterable!r}>"
@@ -229,6 +318,12 @@ class World:
                 elif isinstance(x, (ast.Import, ast.ImportFrom)):
                     for al in x.names:
                         self.module_names.add((al.asname or al.name).split(".")[0])
+        self.records = record_types(self.mod)
+        self.imports = set()
+        for st_ in ast.walk(self.mod.tree):
+            if isinstance(st_, (ast.Import, ast.ImportFrom)):
+                for al in st_.names:
+                    self.imports.add((al.asname or al.name).split(".")[0])
         self.class_consts = {}
         for c in reversed(chain):
             cdef = self.mod.classes.get(c)
@@ -266,6 +361,21 @@ class World:
         self.notes = []
         self.fresh = 0
         self.txt_lens = []           # (Txt, value of its len()) for texts of unknown length
+        # lowering gaps: constructs of the analysed functions the evaluator skipped or dropped (a statement kind it does not know, a write whose
+        # value it could not build, effects under a test it could not decide).  Shared by all worlds of one checker run (kept on the context):
+        # while a gap is open no rule reports a violation, only "not decided" (verifier/c04.py: guarded)
+        if getattr(ctx, "_c04_gaps", None) is None:
+            ctx._c04_gaps = []
+        self.gaps = ctx._c04_gaps
+
+    def gap(self, node, why, qual=None):
+        try:
+            where = self.ctx.src.where(node) if node is not None and hasattr(node, "lineno") else (qual or "")
+        except Exception:  # noqa
+            where = qual or ""
+        item = (where, why)
+        if item not in self.gaps:
+            self.gaps.append(item)
 
     # ---- bounds
     def bound(self, v, lo, hi, split=False):
@@ -308,6 +418,12 @@ def wrap(v):
         return F.fn("star", wrap(v.v))
     if isinstance(v, GetterV):
         return F.sym(f"<{v.kind}getter>")
+    if isinstance(v, PartialV):
+        return F.fn("partial", wrap(v.callee), *[wrap(x) for x in v.pos], *[F.fn("kw:" + k, wrap(x)) for k, x in sorted(v.kw.items())])
+    if isinstance(v, TypedArr):
+        return F.fn("astype", wrap(v.arr), F.sym(repr(v.code)))
+    if isinstance(v, DictValue):
+        return F.fn("record", *[F.fn("kw:" + str(k), wrap(x)) for k, x in sorted(v.d.items(), key=lambda kv: str(kv[0]))])
     if isinstance(v, SeqV):
         return F.fn("seqv", wrap(v.elem), wrap(v.count))
     if isinstance(v, PackV):
@@ -494,6 +610,17 @@ class OP4Eval(AutoEvaluator):
         if (sa is None) != (sb is None) and op in ("Eq", "NotEq"):
             # a string constant against a non-string value: scenario oracle decides (e.g. sparse == "dense")
             return None
+        if op in ("Lt", "LtE", "Gt", "GtE"):
+            # max(x, y, ...) > k  is  x > k or y > k or ...;  max(...) <= k is the conjunction; min dually
+            for x, y, o in ((a, b, op), (b, a, {"Lt": "Gt", "LtE": "GtE", "Gt": "Lt", "GtE": "LtE"}[op])):
+                ux = unfn(x)
+                if ux is not None and ux[0] in ("call:max", "call:min", "call:np.maximum", "call:np.minimum") and len(ux[1]) >= 2 and all(is_rat(z) for z in ux[1]):
+                    is_max = ux[0] in ("call:max", "call:np.maximum")
+                    rs = [self.cmp_truth(o, z, y) for z in ux[1]]
+                    some = (o in ("Gt", "GtE")) == is_max          # one argument suffices
+                    if some:
+                        return True if any(r is True for r in rs) else (False if all(r is False for r in rs) else None)
+                    return False if any(r is False for r in rs) else (True if all(r is True for r in rs) else None)
         d = a - b
         if d.is_zero():
             return op in ("Eq", "LtE", "GtE")
@@ -527,10 +654,12 @@ class OP4Eval(AutoEvaluator):
         if isinstance(v, BytesV):
             n = const_int(v.n)
             return None if n is None else n > 0
-        if isinstance(v, (FuncV, StructV, BoundV, SliceV, DtypeV, PackV, GetterV)):
+        if isinstance(v, (FuncV, StructV, BoundV, SliceV, DtypeV, PackV, GetterV, PartialV, BufV, TypedArr)):
             return True
         if isinstance(v, SeqV):
             return self.truth(v.count) if is_rat(v.count) else None
+        if isinstance(v, DictValue):
+            return bool(v.d)
         if isinstance(v, PosV):
             return None
         if not is_rat(v):
@@ -845,7 +974,15 @@ class OP4Eval(AutoEvaluator):
             out = []
             for e in node.elts:
                 if isinstance(e, ast.Starred):
-                    return Unknown("starred element")
+                    v = self.ev(e.value)
+                    if isinstance(v, tuple):
+                        out.extend(v)
+                        continue
+                    got = self.elements_of(v)
+                    if got is None:
+                        return v if is_unknown(v) else Unknown("starred element of unknown length")
+                    out.extend(got)
+                    continue
                 out.append(self.ev(e))
             return tuple(out)
         if t is ast.Starred:
@@ -917,7 +1054,7 @@ class OP4Eval(AutoEvaluator):
             v = self._ev(node.value)
             self._assign(node.target, v, node)
             return v
-        if t is ast.Dict and node.keys and all(isinstance(k, ast.Constant) for k in node.keys):
+        if t is ast.Dict and all(isinstance(k, ast.Constant) for k in node.keys):
             return DictValue({k.value: self.ev(v) for k, v in zip(node.keys, node.values)})
         if t is ast.Slice:
             return SliceV(*[None if p is None else self._ev(p) for p in (node.lower, node.upper, node.step)])
@@ -929,6 +1066,18 @@ class OP4Eval(AutoEvaluator):
             ast.copy_location(fdef.body[0], node)
             return FuncV(fdef, closure=self.env, qual=f"{self.qual}.<lambda>")
         return Unknown(f"node {t.__name__}")
+
+    def elements_of(self, v):
+        """the elements of a sequence value whose length is a constant: X[a:b] with constant bounds -> [X[a], ..., X[b - 1]]"""
+        u = unfn(v) if is_rat(v) else None
+        if u is not None and u[0] == "idx" and len(u[1]) == 2:
+            us = unfn(u[1][1])
+            if us is not None and us[0] == "slice" and len(us[1]) == 3 and sym_name(us[1][2]) == "None":
+                lo = 0 if sym_name(us[1][0]) == "None" else const_int(us[1][0])
+                hi = const_int(us[1][1])
+                if lo is not None and hi is not None and 0 <= lo <= hi <= lo + 64:
+                    return [F.fn("idx", u[1][0], F.const(k)) for k in range(lo, hi)]
+        return None
 
     def comprehension(self, node):
         """[elt for target in iterable]: a tuple when the iterable is one (literal table), else one generic element (SeqV)"""
@@ -1036,6 +1185,8 @@ class OP4Eval(AutoEvaluator):
             if ta.same(tb):
                 return boolv(op == "Eq")
             return Unknown("comparison of texts")
+        if isinstance(b, PosV) and const_int(a) is not None and op in ("Lt", "LtE", "Gt", "GtE", "Eq", "NotEq"):
+            a, b, op = b, a, {"Lt": "Gt", "LtE": "GtE", "Gt": "Lt", "GtE": "LtE"}.get(op, op)
         if isinstance(a, PosV) and const_int(b) is not None:
             k = const_int(b)
             lo = a.minabs
@@ -1058,6 +1209,23 @@ class OP4Eval(AutoEvaluator):
             other = b if sym_name(a) == "None" else a
             if not is_rat(other):
                 return boolv(op == "IsNot")
+        if op in ("In", "NotIn") and isinstance(b, DictValue) and is_rat(a):
+            r = self._has_key(b, a)
+            if r is not None:
+                return boolv(r == (op == "In"))
+            parts = [self._key_eq(a, k) for k in b.d]
+            v = parts[0] if len(parts) == 1 else F.fn("bool:Or", *parts)
+            return v if op == "In" else F.fn("not", v)
+        if op in ("In", "NotIn") and isinstance(b, tuple) and is_rat(a) and b and all(is_rat(x) and (strconst(x) is not None or x.is_const()) for x in b):
+            # x in ("a", "b"): the disjunction of the equalities (each decided by the scenario)
+            parts = [F.fn("cmp:Eq", a, x) for x in b]
+            rs = [self.truth(p_) for p_ in parts]
+            if any(r is True for r in rs):
+                return boolv(op == "In")
+            if all(r is False for r in rs):
+                return boolv(op == "NotIn")
+            v = parts[0] if len(parts) == 1 else F.fn("bool:Or", *parts)
+            return v if op == "In" else F.fn("not", v)
         if op in ("In", "NotIn"):
             try:
                 return F.fn("cmp:" + op, wrap(a), wrap(b))
@@ -1073,8 +1241,14 @@ class OP4Eval(AutoEvaluator):
             if attr in ("start", "stop", "step"):
                 v = {"start": base.lo, "stop": base.hi, "step": base.step}[attr]
                 return NONE if v is None else v
+        if isinstance(base, TypedArr):
+            if attr == "size":
+                return self.len_of(base.arr)
+            if attr == "nbytes":
+                return self.len_of(base.arr) * CODE_SIZE[base.code]
+            return Unknown(f"attribute {attr} of a typed array")
         if isinstance(base, StructV):
-            if attr in ("pack", "unpack"):
+            if attr in ("pack", "unpack", "unpack_from"):
                 return BoundV(base, attr)
             if attr == "size":
                 r = parse_struct(base.fmt)
@@ -1086,6 +1260,12 @@ class OP4Eval(AutoEvaluator):
             return Unknown(f"attribute {attr} of a struct")
         if isinstance(base, FuncV):
             return Unknown(f"attribute {attr} of a function")
+        if isinstance(base, NTup) and attr in base.fields:
+            return base[base.fields.index(attr)]
+        if isinstance(base, DictValue):
+            if attr in base.d:
+                return base.d[attr]
+            return Unknown(f"attribute {attr} of a record that has no such field")
         if isinstance(base, tuple):
             return Unknown(f"attribute {attr} of a tuple")
         if isinstance(base, (Txt, PackV, BytesV, DtypeV, PosV)):
@@ -1180,11 +1360,34 @@ class OP4Eval(AutoEvaluator):
                 except IndexError:
                     return Unknown("tuple index out of range")
             return Unknown("tuple index")
+        if isinstance(base, BytesV):
+            if isinstance(ix, SliceV) and (ix.step is None or sym_name(ix.step) == "None"):
+                bd = [None if (p_ is None or (is_rat(p_) and sym_name(p_) == "None")) else p_ for p_ in (ix.lo, ix.hi)]
+                if any(p_ is not None and not is_rat(p_) for p_ in bd):
+                    return Unknown("slice bounds of the bytes read")
+                if any(p_ is not None and p_.is_const() and p_.const_value() < 0 for p_ in bd):
+                    bd = [p_ if (p_ is None or not (p_.is_const() and p_.const_value() < 0)) else base.n + p_ for p_ in bd]
+                return self.bytes_slice(base, bd[0], bd[1])
+            return Unknown("index into the bytes read")
         if isinstance(base, DictValue):
             s = strconst(ix) if is_rat(ix) else None
             key = s if s is not None else (const_int(ix) if is_rat(ix) else None)
-            if key in base.d:
-                return base.d[key]
+            if key is None and is_rat(ix) and self.is_boolean(ix):
+                r = self.truth(ix)
+                if r is None:
+                    self.W.undecided.append((node, ix, self.qual))
+                    return Unknown(f"table indexed by the undecided flag {ix!r}")
+                key = r
+            if key is not None:
+                if key in base.d:
+                    return base.d[key]
+                return Unknown("dictionary key")
+            if is_rat(ix):
+                # a key that is not a constant: the entry whose key it equals in this scenario
+                hits = [k for k in base.d if self.truth(self._key_eq(ix, k)) is True]
+                rest = [k for k in base.d if self.truth(self._key_eq(ix, k)) is None]
+                if len(hits) == 1 and not rest:
+                    return base.d[hits[0]]
             return Unknown("dictionary key")
         if is_rat(base):
             ub = unfn(base)
@@ -1213,7 +1416,11 @@ class OP4Eval(AutoEvaluator):
         kw = {}
         for k in node.keywords:
             if k.arg is None:
-                kw["**"] = self.ev(k.value)
+                v = self.ev(k.value)
+                if isinstance(v, DictValue) and all(isinstance(x, str) for x in v.d):
+                    kw.update(v.d)          # **{"a": 1, "b": 2}: the entries themselves
+                else:
+                    kw["**"] = v
             else:
                 kw[k.arg] = self.ev(k.value)
         return pos, kw
@@ -1251,11 +1458,15 @@ class OP4Eval(AutoEvaluator):
             else:
                 root = name.split(".")[0] if name else None
                 pre = dotted(f.value)
-                if name is None or root in self.env or root in W.pinned or root == "self" or pre in self.env or pre in W.pinned:
+                is_const = (isinstance(f.value, ast.Name) and f.value.id in W.consts and f.value.id not in self.locals) or \
+                    (isinstance(f.value, ast.Attribute) and f.value.attr in W.class_consts and dotted(f.value.value) in ("self", W.cls))
+                if name is None or root in self.env or root in W.pinned or root == "self" or pre in self.env or pre in W.pinned or is_const:
                     recv = self._ev(f.value)
                     method = f.attr
                     if is_unknown(recv):
                         self._args(node)
+                        if not is_bad(recv) and method in ("write", "writelines", "tofile", "read", "readline", "seek", "pack", "unpack"):
+                            W.gap(node, f"`.{method}` on a value the evaluator could not determine: what it does is dropped", self.qual)
                         return recv
         else:
             callee = self._ev(f)
@@ -1265,11 +1476,13 @@ class OP4Eval(AutoEvaluator):
         if isinstance(callee, BoundV):
             pos, kw = self._args(node)
             return self.struct_call(callee.st, callee.which, pos, node)
-        if isinstance(callee, GetterV):
+        if isinstance(callee, (GetterV, PartialV)):
             pos, kw = self._args(node)
-            return self.call_getter(callee, pos, kw, node)
+            return self.call_value(callee, pos, kw, node)
         if callee is not None and is_unknown(callee):
             self._args(node)
+            if not is_bad(callee):
+                W.gap(node, f"call of `{ast.unparse(node.func)[:40]}`, a value the evaluator could not determine: what it does is dropped", self.qual)
             return callee
         pos, kw = self._args(node)
         if callee is not None:
@@ -1283,6 +1496,23 @@ class OP4Eval(AutoEvaluator):
         if method is not None:
             return self.method_call(recv, method, pos, kw, node)
         return self.builtin_call(name or "?", pos, kw, node)
+
+    def _key_eq(self, v, k):
+        kv = F.sym(repr(k)) if isinstance(k, str) else (boolv(k) if isinstance(k, bool) else F.const(k))
+        return F.fn("cmp:Eq", v, kv)
+
+    def _has_key(self, dv, v):
+        """v in dv.keys(): True / False / None"""
+        if not is_rat(v):
+            return None
+        s = strconst(v)
+        key = s if s is not None else const_int(v)
+        if key is not None:
+            return key in dv.d
+        rs = [self.truth(self._key_eq(v, k)) for k in dv.d]
+        if any(r is True for r in rs):
+            return True
+        return False if all(r is False for r in rs) else None
 
     def call_getter(self, g, pos, kw, node):
         if len(pos) != 1 or kw:
@@ -1300,6 +1530,10 @@ class OP4Eval(AutoEvaluator):
             return self.call_func(callee, pos, kw, node)
         if isinstance(callee, GetterV):
             return self.call_getter(callee, pos, kw, node)
+        if isinstance(callee, PartialV):
+            both = dict(callee.kw)
+            both.update(kw)
+            return self.call_value(callee.callee, list(callee.pos) + list(pos), both, node)
         if isinstance(callee, BoundV):
             return self.struct_call(callee.st, callee.which, pos, node)
         if is_rat(callee):
@@ -1384,7 +1618,49 @@ class OP4Eval(AutoEvaluator):
                 return r
             return PackV(r[0], r[1], st.fmt)
         by = pos[0] if pos else None
+        if which == "unpack_from":
+            off = pos[1] if len(pos) > 1 else F.const(0)
+            size = self.attr_of(st, "size", node)
+            if not isinstance(by, BytesV) or not is_rat(off) or not is_rat(size):
+                return by if is_unknown(by) else Unknown("unpack_from of a value that is not the bytes read")
+            by = self.bytes_slice(by, off, off + size)
         return self.unpack(st.fmt, by)
+
+    def bytes_slice(self, by, lo, hi):
+        """by[lo:hi] for bytes read from the stream: whole items between two byte offsets (a cut inside an item is a misread)"""
+        items, at = [], F.const(0)
+        lo = F.const(0) if lo is None else lo
+        started, items_prev = False, None
+        for it in by.items:
+            nb = it.nbytes()
+            if hi is not None and (hi - at).is_zero():
+                break
+            if not started:
+                d = lo - at
+                if d.is_zero():
+                    started = True
+                elif d.is_const() and d.const_value() < 0:
+                    return Bad(f"a slice starting at byte {lo!r} cuts the item {items_prev!r}")
+                elif not d.is_const():
+                    return Unknown(f"slice of the bytes read at the offset {lo!r}")
+            items_prev = it
+            if started:
+                if hi is not None:
+                    r = hi - at - nb
+                    if r.is_const() and r.const_value() < 0:
+                        return Bad(f"a slice ending at byte {hi!r} cuts the item {it!r} ({nb!r} bytes from byte {at!r})")
+                    if not r.is_const() and not r.is_zero():
+                        return Unknown(f"slice of the bytes read up to the offset {hi!r}")
+                items.append(it)
+            at = at + nb
+        if not started and not (lo - at).is_zero():
+            d = lo - at
+            if d.is_const() and d.const_value() < 0:
+                return Bad(f"a slice starting at byte {lo!r} cuts the item {by.items[-1]!r}")
+        n = F.const(0)
+        for it in items:
+            n = n + it.nbytes()
+        return BytesV(items, n)
 
     def unpack(self, fmt, by):
         if is_unknown(by):
@@ -1408,10 +1684,57 @@ class OP4Eval(AutoEvaluator):
             return tuple(F.fn("idx", base, F.const(i)) for i in range(n))
         return Unknown("unpack of a non-bytes value")
 
+    def typed_array(self, x, dt):
+        """x converted to the dtype value dt -> TypedArr, or None when the dtype (with its byte order) is not a stated one"""
+        if isinstance(x, TypedArr):
+            x = x.arr
+        if not is_rat(x):
+            return None
+        if not isinstance(dt, DtypeV):
+            t = as_txt(dt, True) if (isinstance(dt, Txt) or (is_rat(dt) and strconst(dt) is not None)) else None
+            if t is None:
+                return None
+            dt = DtypeV(t)
+        code = dt.code()
+        if code is None:
+            return None
+        tk = dt.fmt.tokens()
+        order = None
+        if tk and tk[0][0] == "f":
+            order = tk[0][1].v
+        elif tk and tk[0][0] == "c" and tk[0][1] in "<>=|":
+            order = tk[0][1]
+        else:
+            return None          # no byte order stated: native - not what a file with a chosen byte order holds
+        return TypedArr(x, code, order)
+
+    def packed_of(self, ta):
+        return PackV(ta.order, [Item(ta.code, self.len_of(ta.arr), ta.arr, run=True)], None)
+
     def method_call(self, recv, method, pos, kw, node):
         W = self.W
-        if isinstance(recv, StructV) and method in ("pack", "unpack"):
+        if isinstance(recv, StructV) and method in ("pack", "unpack", "unpack_from"):
             return self.struct_call(recv, method, pos, node)
+        if isinstance(recv, TypedArr):
+            if method == "tobytes" and not pos:
+                return self.packed_of(recv)
+            if method == "tofile" and len(pos) == 1 and is_rat(pos[0]) and not kw:
+                W.emits.append(Emit(pos[0], self.packed_of(recv), tuple(W.frames), node, self.qual))
+                return NONE
+            if method in ("ravel", "copy", "flatten") and not pos:
+                return recv
+            if method == "astype" and pos:
+                r = self.typed_array(recv, pos[0])
+                return r if r is not None else Unknown("astype to a dtype the evaluator cannot read")
+            return Unknown(f"method {method} of a typed array")
+        if is_rat(recv) and method == "astype" and pos:
+            r = self.typed_array(recv, pos[0])
+            if r is not None:
+                return r
+        if is_rat(recv) and method in ("tobytes", "tofile") and W.stream is None and W.lines is None:
+            # raw bytes of an array whose dtype / byte order is not stated: not comparable with what a reader of a given byte order expects
+            W.gap(node, f"`.{method}()` of an array whose dtype and byte order are not stated", self.qual)
+            return Unknown(f"{method} of an array whose dtype and byte order are not stated")
         t = as_txt(recv) if (isinstance(recv, Txt) or (is_rat(recv) and strconst(recv) is not None)) else None
         if t is not None:
             r = self.text_method(t, method, pos, kw, node)
@@ -1423,6 +1746,34 @@ class OP4Eval(AutoEvaluator):
             if isinstance(recv, BytesV):
                 return Bad(f"decode() of {recv!r}")
             return Unknown("decode of packed bytes")
+        if isinstance(recv, BufV):
+            d = dotted(node.func.value) if isinstance(getattr(node, "func", None), ast.Attribute) else None
+            if method == "write" and len(pos) == 1 and d is not None and self.env.get(d) is recv and d not in W.pinned:
+                x = self.packed_of(pos[0]) if isinstance(pos[0], TypedArr) else pos[0]
+                self.env[d] = BufV(recv.binary, recv.parts + (x,)) if not is_unknown(x) else x
+                return NONE
+            if method in ("getvalue", "getbuffer") and not pos:
+                if recv.binary:
+                    if all(isinstance(x, PackV) for x in recv.parts):
+                        return PackV(None, [it for x in recv.parts for it in x.items], None)
+                    return Unknown("buffer holding values that are not packed bytes")
+                parts = [as_txt(x) for x in recv.parts]
+                return Txt(parts) if all(x is not None for x in parts) else Unknown("buffer holding values that are not texts")
+            if method in ("close", "flush"):
+                return NONE
+            return Unknown(f"method {method} of an in-memory buffer")
+        if isinstance(recv, NTup) and method == "_replace" and not pos and set(kw) <= set(recv.fields):
+            return NTup.make([kw.get(f_, x) for f_, x in zip(recv.fields, recv)], recv.fields)
+        if isinstance(recv, NTup) and method == "_asdict" and not pos and not kw:
+            return DictValue(dict(zip(recv.fields, recv)))
+        if isinstance(recv, DictValue) and method == "get" and 1 <= len(pos) <= 2 and not kw:
+            return self.subscript_val(recv, pos[0], node) if self._has_key(recv, pos[0]) is True else \
+                ((pos[1] if len(pos) == 2 else NONE) if self._has_key(recv, pos[0]) is False else Unknown("dictionary look-up with an undecided key"))
+        if isinstance(recv, DictValue) and method in ("values", "keys", "items") and not pos and not kw:
+            if method == "values":
+                return tuple(recv.d.values())
+            ks = tuple(F.sym(repr(k)) if isinstance(k, str) else (boolv(k) if isinstance(k, bool) else F.const(k)) for k in recv.d)
+            return ks if method == "keys" else tuple(zip(ks, recv.d.values()))
         if isinstance(recv, tuple):
             if method in ("append", "extend") and len(pos) == 1:
                 # a list kept in a name grows (lines / packed records collected before they are written)
@@ -1446,7 +1797,7 @@ class OP4Eval(AutoEvaluator):
             return Unknown(f"method {method} of {type(recv).__name__}")
         # ---- a Rat receiver
         if method == "write" and len(pos) == 1:
-            W.emits.append(Emit(recv, pos[0], tuple(W.frames), node, self.qual))
+            W.emits.append(Emit(recv, self.packed_of(pos[0]) if isinstance(pos[0], TypedArr) else pos[0], tuple(W.frames), node, self.qual))
             return NONE
         if method == "writelines" and len(pos) == 1 and isinstance(pos[0], (tuple, SeqV)):
             for x in (pos[0] if isinstance(pos[0], tuple) else (pos[0].elem,)):
@@ -1566,6 +1917,17 @@ class OP4Eval(AutoEvaluator):
             a = sarg(0)
             if a is not None and c is not None:
                 return tuple(Txt([Lit(x)]) for x in c.partition(a))
+            if a:
+                r = t.split(a)
+                if r is not None and len(r) == 1:
+                    return (t, Txt(), Txt())
+                if r is not None:
+                    tail = []
+                    for k, x in enumerate(r[1:]):
+                        if k:
+                            tail.append(Lit(a))
+                        tail.append(x)
+                    return (r[0], Txt([Lit(a)]), Txt(tail))
             return Unknown("partition")
         if method == "format":
             if any(is_unknown(x) for x in pos) or any(is_unknown(x) for x in kw.values()):
@@ -1659,6 +2021,11 @@ class OP4Eval(AutoEvaluator):
             if is_rat(x):
                 return self.len_of(x)
             return x if is_unknown(x) else Unknown("len")
+        if name in ("max", "min") and n >= 2 and not kw and all(is_rat(x) for x in pos):
+            # the argument that is the largest / smallest whatever the inputs, when the intervals tell
+            for i, x in enumerate(pos):
+                if all(j == i or self.cmp_truth("GtE" if name == "max" else "LtE", x, y) is True for j, y in enumerate(pos)):
+                    return x
         if name == "abs" and n == 1 and is_rat(pos[0]):
             lo, hi = self.rng(pos[0])
             if lo is not None and lo >= 0:
@@ -1682,6 +2049,11 @@ class OP4Eval(AutoEvaluator):
             return tuple(reversed(pos[0]))
         if name in ("np.flatnonzero", "numpy.flatnonzero") and n == 1 and is_rat(pos[0]):
             return F.fn("idx", F.fn("call:np.nonzero", pos[0]), F.const(0))
+        if name in ("functools.partial", "partial") and n >= 1 and "**" not in kw and not any(isinstance(x, Star) for x in pos):
+            if isinstance(pos[0], (FuncV, PartialV, GetterV, BoundV)) or is_rat(pos[0]):
+                return PartialV(pos[0], pos[1:], kw)
+        if name in ("io.BytesIO", "io.StringIO", "BytesIO", "StringIO") and n == 0 and not kw:
+            return BufV(name.endswith("BytesIO"))
         if name == "operator.itemgetter" and n == 1 and not kw:
             return GetterV("item", pos[0])
         if name == "operator.attrgetter" and n == 1 and not kw and is_rat(pos[0]) and strconst(pos[0]) is not None:
@@ -1693,6 +2065,24 @@ class OP4Eval(AutoEvaluator):
             op = {"add": ast.Add, "sub": ast.Sub, "mul": ast.Mult, "floordiv": ast.FloorDiv, "mod": ast.Mod, "lshift": ast.LShift, "rshift": ast.RShift,
                   "and_": ast.BitAnd, "or_": ast.BitOr}[name.split(".")[1]]()
             return self.binop_values(op, pos[0], pos[1], node)
+        if name.split(".")[-1] == "SimpleNamespace" and n == 0 and "**" not in kw:
+            return DictValue(dict(kw))
+        if name == "dict" and n == 0 and "**" not in kw:
+            return DictValue(dict(kw))
+        if name == "dict" and n == 1 and not kw and isinstance(pos[0], DictValue):
+            return DictValue(dict(pos[0].d))
+        if name in W.records and "**" not in kw and not any(isinstance(x, Star) for x in pos):
+            kind_, fields, dflt = W.records[name]
+            vals = dict(zip(fields, pos))
+            if len(pos) > len(fields) or set(kw) - set(fields) or set(kw) & set(vals):
+                return Unknown(f"arguments of the record {name}")
+            vals.update(kw)
+            for f_ in fields:
+                if f_ not in vals:
+                    if f_ not in dflt:
+                        return Unknown(f"field {f_} of the record {name} is not given")
+                    vals[f_] = self.ev(dflt[f_])
+            return NTup.make([vals[f_] for f_ in fields], fields) if kind_ == "tuple" else DictValue(vals)
         if name == "map" and n == 2 and isinstance(pos[1], tuple) and not kw:
             return tuple(self.call_value(pos[0], [x], {}, node) for x in pos[1])
         if name == "divmod" and n == 2 and is_rat(pos[0]) and is_rat(pos[1]):
@@ -1715,6 +2105,17 @@ class OP4Eval(AutoEvaluator):
             if t is None:
                 return Unknown("struct format")
             return self.unpack(t, pos[1])
+        if name == "struct.unpack_from" and n >= 2:
+            t = as_txt(pos[0], True)
+            if t is None:
+                return Unknown("struct format")
+            return self.struct_call(StructV(t), "unpack_from", pos[1:], node)
+        if name in ("np.asarray", "np.array", "np.ascontiguousarray", "np.asanyarray", "np.require") and n >= 1 and (n >= 2 or "dtype" in kw):
+            r = self.typed_array(pos[0], pos[1] if n >= 2 else kw["dtype"])
+            if r is not None:
+                return r
+        if name in ("bytes", "bytearray", "memoryview") and n == 1 and isinstance(pos[0], TypedArr):
+            return self.packed_of(pos[0])
         if name == "struct.calcsize" and n == 1:
             t = as_txt(pos[0], True)
             if t is not None:
@@ -1787,6 +2188,13 @@ class OP4Eval(AutoEvaluator):
                 out.append(Lit(end))
                 W.emits.append(Emit(kw["file"], Txt(out), tuple(W.frames), node, self.qual))
             return NONE
+        root = name.split(".")[0]
+        if self.fn is not None and root in W.module_names and root not in W.imports and name not in W.table and not W.is_opaque(name) \
+                and root not in self.env and root not in ("self", W.cls):
+            # an object the module itself defines (a class, a partial, a table of callables) that the evaluator does not model: what the call
+            # does or returns is unknown - an opaque application would be taken for a library function of its arguments
+            W.gap(node, f"call of the module-level object `{name}` is not modelled", self.qual)
+            return Unknown(f"call of the module-level object `{name}` is not modelled")
         return self.opaque_call(name, pos, kw, node)
 
     def len_of(self, x):
@@ -1802,6 +2210,8 @@ class OP4Eval(AutoEvaluator):
                 return self.len_of(a[0]) * self.W.mult
             if name == "call:np.zeros" and a and is_rat(a[0]):
                 return a[0]
+            if name == "call:.read" and len(a) == 2 and is_rat(a[1]) and sym_name(a[1]) != "None":
+                return a[1]          # the scenario is a complete file: a read of n bytes returns n bytes
             if name == "idx" and len(a) == 2 and is_rat(a[1]):
                 us = unfn(a[1])
                 if us is not None and us[0] == "slice" and len(us[1]) == 3 and sym_name(us[1][2]) == "None" and sym_name(us[1][1]) != "None":
@@ -1877,6 +2287,8 @@ class OP4Eval(AutoEvaluator):
         if t is ast.For:
             self.do_for(st)
             return
+        if t is ast.While and self.counter_loop(st):
+            return
         if t is ast.While:
             # the test the loop goes on under: its own test and the leading `if ...: break` guards of its body (`while True: if c >= cols: break`)
             guards = []
@@ -1951,7 +2363,114 @@ class OP4Eval(AutoEvaluator):
         if t is ast.Continue:
             self.loopctl = "continue"
             return
-        # Pass, Import, Assert, Delete, Global, Nonlocal: no effect on values
+        if t is ast.Match:
+            self.do_match(st)
+            return
+        if t in (ast.Pass, ast.Import, ast.ImportFrom, ast.Assert):
+            return          # no effect on the values followed
+        if t is ast.Delete:
+            for tg in st.targets:
+                if isinstance(tg, ast.Name) and tg.id not in W.pinned:
+                    self.env.pop(tg.id, None)
+            return
+        # anything else (global / nonlocal, class definitions, async statements, ...): not lowered - whatever it binds is unknown from here on
+        W.gap(st, f"statement `{t.__name__}` is not lowered", self.qual)
+        self._kill_assigned(st, f"bound by a `{t.__name__}` statement the evaluator does not lower")
+
+    def counter_loop(self, st):
+        """`i = a; while i < n: BODY; i += s` is `for i in range(a, n, s): BODY` when nothing else in the body binds i and no `continue` skips the
+        increment: evaluated as that for loop (one generic iteration).  Returns False when the loop has another shape"""
+        W = self.W
+        t = st.test
+        if st.orelse or not isinstance(t, ast.Compare) or len(t.ops) != 1 or len(st.body) < 2:
+            return False
+        a, b, op = t.left, t.comparators[0], t.ops[0]
+        if isinstance(op, (ast.Gt, ast.GtE)):
+            a, b, op = b, a, (ast.Lt() if isinstance(op, ast.Gt) else ast.LtE())
+        if not isinstance(op, (ast.Lt, ast.LtE)) or not isinstance(a, ast.Name):
+            return False
+        name = a.id
+        if name in W.pinned or name not in self.env or any(isinstance(x, ast.Name) and x.id == name for x in ast.walk(b)):
+            return False
+        last = st.body[-1]
+        if not (isinstance(last, ast.AugAssign) and isinstance(last.op, ast.Add) and isinstance(last.target, ast.Name) and last.target.id == name):
+            return False
+        for s0 in st.body[:-1]:
+            for x in ast.walk(s0):
+                if isinstance(x, ast.Name) and x.id == name and isinstance(x.ctx, (ast.Store, ast.Del)):
+                    return False
+                if isinstance(x, (ast.Continue, ast.FunctionDef, ast.Lambda, ast.Global, ast.Nonlocal)):
+                    return False
+        if any(isinstance(x, ast.Name) and x.id == name for x in ast.walk(last.value)):
+            return False
+        init = self.env[name]
+        step = self.ev(last.value)
+        if not is_rat(init) or not is_rat(step):
+            return False
+        lo_, _hi = self.rng(step)
+        if lo_ is None or lo_ <= 0:
+            return False
+        W.fresh += 1
+        n0 = f"<init{W.fresh}>"
+        self.env[n0] = init
+        args = [ast.Name(id=n0, ctx=ast.Load()), b if isinstance(op, ast.Lt) else ast.BinOp(left=b, op=ast.Add(), right=ast.Constant(value=1))]
+        if const_int(step) != 1:
+            args.append(last.value)
+        loop = ast.For(target=ast.Name(id=name, ctx=ast.Store()), iter=ast.Call(func=ast.Name(id="range", ctx=ast.Load()), args=args, keywords=[]),
+                       body=list(st.body[:-1]), orelse=[], type_comment=None)
+        ast.copy_location(loop, st)
+        ast.fix_missing_locations(loop)
+        for x in (loop.target, loop.iter):
+            ast.copy_location(x, st)
+        self.do_for(loop)
+        self.env.pop(n0, None)
+        if not self.done:
+            bound = self.ev(args[1])
+            ok = const_int(step) == 1 and is_rat(bound) and self.truth(F.fn("cmp:LtE", init, bound)) is True
+            self.env[name] = bound if ok else Unknown(f"value of the counter `{name}` after its loop")
+        return True
+
+    def do_match(self, st):
+        """match subject: case ...  ->  the if / elif chain it abbreviates (literal, dotted-name, singleton, `|` and capture / wildcard patterns; the
+        subject is evaluated once)"""
+        W = self.W
+        W.fresh += 1
+        tmp = f"<match{W.fresh}>"
+        self.env[tmp] = self.ev(st.subject)
+
+        def subj():
+            return ast.Name(id=tmp, ctx=ast.Load())
+
+        def test_of(p):
+            if isinstance(p, ast.MatchValue):
+                return ast.Compare(left=subj(), ops=[ast.Eq()], comparators=[p.value])
+            if isinstance(p, ast.MatchSingleton):
+                return ast.Compare(left=subj(), ops=[ast.Is()], comparators=[ast.Constant(value=p.value)])
+            if isinstance(p, ast.MatchAs) and p.pattern is None:
+                return ast.Constant(value=True)
+            if isinstance(p, ast.MatchOr):
+                parts = [test_of(x) for x in p.patterns]
+                return None if any(x is None for x in parts) else ast.BoolOp(op=ast.Or(), values=parts)
+            return None
+        chain = []
+        for case in reversed(st.cases):
+            t = test_of(case.pattern)
+            capture = case.pattern.name if isinstance(case.pattern, ast.MatchAs) and case.pattern.pattern is None else None
+            if t is None or (capture and case.guard is not None):
+                W.gap(case.pattern, "match pattern is not lowered", self.qual)
+                self._kill_assigned(st, "bound under a match pattern the evaluator does not lower")
+                return
+            body = list(case.body)
+            if capture:
+                body = [ast.Assign(targets=[ast.Name(id=capture, ctx=ast.Store())], value=subj(), lineno=case.pattern.lineno)] + body
+            if case.guard is not None:
+                t = ast.BoolOp(op=ast.And(), values=[t, case.guard])
+            node = ast.If(test=t, body=body, orelse=chain)
+            ast.copy_location(node, case.pattern)
+            ast.fix_missing_locations(node)
+            chain = [node]
+        if chain:
+            self.stmt(chain[0])
 
     # ---- an `if` whose test is not decided: both arms are evaluated; when they leave the same state (same values, same position in the
     # input) the arms are interchangeable for the rule and evaluation continues, otherwise what they assign becomes Unknown
@@ -2005,6 +2524,7 @@ class OP4Eval(AutoEvaluator):
         self._restore(pre, logs=False)
         self.run(st.orelse)
         b = dict(env=self.env, done=self.done, loopctl=self.loopctl, raised=self.raised, ret=self.returns[pre["nret"]:], pos=self._pos(), alts=list(self.alts))
+        b_moved = len(W.emits) > mid["logs"][0] or any(not isinstance(c[0], str) for c in W.calls[mid["logs"][1]:])
         # drop what the second arm logged (the first arm's trace stands for both when they merge)
         for x, n in zip((W.emits, W.calls, W.compares, W.whiles, W.stores, W.undecided, W.raises, W.misreads), mid["logs"]):
             del x[n:]
@@ -2049,8 +2569,13 @@ class OP4Eval(AutoEvaluator):
             self.env = env
             W.forks.append((st, self.qual))
             return
+        # neither merged nor split: what the two arms wrote, read or called is dropped - if there was anything, the trace is incomplete
+        moved = b_moved or a["raised"] != b["raised"] or a["pos"] != b["pos"] or a["pos"] != (pre["si"], pre["li"]) or mid["logs"][0] > pre["logs"][0] \
+            or any(not isinstance(c[0], str) for c in W.calls[pre["logs"][1]:mid["logs"][1]])
         self._restore(pre, logs=True)
         W.undecided.append((st, None, self.qual))
+        if moved:
+            W.gap(st, f"writes / reads / calls under the undecided test `{ast.unparse(st.test)[:60]}` are dropped", self.qual)
         self._kill_assigned(st, why)
 
     def _kill_assigned(self, st, why):
@@ -2135,19 +2660,47 @@ class OP4Eval(AutoEvaluator):
         u = unfn(itv) if is_rat(itv) else None
         if u is not None and u[0] == "call:range" and is_rat(elems):
             a = u[1]
+            fr.index = elems
             if len(a) == 1:
                 W.bound(elems, 0, a[0] - 1)
+                ul = unfn(a[0])
+                if ul is not None and ul[0] == "len" and len(ul[1]) == 1:
+                    fr.rows_of = ul[1][0]
             elif len(a) == 2:
                 W.bound(elems, a[0], a[1] - 1)
         pair = elems
-        if u is not None and u[0] == "call:enumerate" and len(u[1]) == 1 and isinstance(elems, tuple) and len(elems) == 2:
-            u, pair = unfn(u[1][0]), elems[1]
+        first = None
+        if u is not None and u[0] == "call:enumerate" and 1 <= len(u[1]) <= 2 and isinstance(elems, tuple) and len(elems) == 2 and is_rat(elems[0]):
+            # enumerate(X[, start]): the counter is start + k, the element is element k of X
+            start = F.const(0)
+            if len(u[1]) == 2:
+                us = unfn(u[1][1])
+                start = us[1][0] if (us is not None and us[0] == "kw:start" and us[1]) else u[1][1]
+            inner = u[1][0]
+            fr.index = elems[0]
+            ln = self.len_of(inner) if is_rat(inner) else None
+            W.bound(elems[0], 0, ln - 1 if is_rat(ln) else None)
+            first = elems[0] + start if is_rat(start) else Unknown("enumerate start")
+            u, pair = unfn(inner), elems[1]
         if u is not None and u[0].endswith("_sparse_col_stats") and isinstance(pair, tuple) and len(pair) == 2 and all(is_rat(x) for x in pair) and W.shape_of:
             # rows of the (start, length) table of the non-zero strings of a column
             rows = next(iter(W.shape_of.values()))[0]
             W.bound(pair[0], 0, rows - 1)
             W.bound(pair[1], 1, rows)
         val = elems
+        if u is not None and u[0] == "call:.transpose" and len(u[1]) == 1 and is_rat(u[1][0]) and is_rat(pair):
+            # the rows of X.T are the columns of X: element k is X[:, k]
+            k = fr.index
+            if k is None:
+                W.fresh += 1
+                k = fr.index = F.sym(f"<ix{W.fresh}>")
+            sh = W.shape_of.get(atom_id(u[1][0]))
+            if sh is not None:
+                W.bound(k, 0, sh[1] - 1)
+            col = F.fn("idx", u[1][0], F.fn("tuple", F.fn("slice", NONE, NONE, NONE), k))
+            val = (first, col) if first is not None else col
+        elif first is not None:
+            val = (first, elems[1])
         if u is not None and u[0] == "idx" and len(u[1]) == 2 and is_rat(elems):
             # element k of base[lo:hi] is base[lo + k]
             us = unfn(u[1][1])
@@ -2219,8 +2772,20 @@ class OP4Eval(AutoEvaluator):
                     ul = unfn(u[1][1])
                     if ul is not None and ul[0] == "list" and len(ul[1]) == n:
                         picks = [F.fn("idx", u[1][0], x) for x in ul[1]]
+                vals = [picks[k] if picks is not None else F.fn("idx", v, F.const(k)) for k in range(n)]
+                if picks is None and u is not None and u[0] == "idx" and len(u[1]) == 2 and is_rat(u[1][1]):
+                    # `a, b = X[k]` inside `for k in range(len(X))`: the names are the generic row of X, as `for a, b in X` would bind them
+                    for fr in reversed(W.frames):
+                        if fr.kind == "for" and fr.rows_of is not None and is_rat(fr.elems) and u[1][1].equals(fr.elems) and u[1][0].equals(fr.rows_of):
+                            fr.row_elems = tuple(vals)
+                            ux = unfn(fr.rows_of)
+                            if ux is not None and ux[0].endswith("_sparse_col_stats") and n == 2 and W.shape_of:
+                                rows = next(iter(W.shape_of.values()))[0]
+                                W.bound(vals[0], 0, rows - 1)
+                                W.bound(vals[1], 1, rows)
+                            break
                 for k, t in enumerate(target.elts):
-                    self._assign(t, picks[k] if picks is not None else F.fn("idx", v, F.const(k)), st)
+                    self._assign(t, vals[k], st)
             else:
                 why = v if is_unknown(v) else (Bad(f"unpacking {len(v)} values into {n} names") if isinstance(v, tuple) else Unknown("tuple unpacking of a non-tuple"))
                 for t in target.elts:
@@ -2500,9 +3065,9 @@ def loader_world(ctx, rstate, wW, binary, truths=None, extra_bounds=None):
     W.pinned["self._fileh"] = FILE
     W.state = {k: v for k, v in rstate.items() if k not in W.pinned}
     if binary:
-        items, _ = items_of(wW.emits)
+        items, _ = items_of(wW.emits, F.sym("f"))
         W.stream = Stream([it for it, _f, _n, _p in items])
     else:
-        lines, _ = lines_of(wW.emits)
+        lines, _ = lines_of(wW.emits, F.sym("f"))
         W.lines = lines
     return W
